@@ -1,7 +1,7 @@
 """Rules over the local scope stack and bounded containers (C09, C10)."""
 import re
 
-from .core import (Prov, bool_cond_edges, callee_is, discr_cond_edges, equal_edges, has_origin, inline_calls, origin_strs, result_switches,
+from .core import (Prov, bool_cond_edges, callee_is, discr_cond_edges, equal_edges, has_origin, inline_calls, some_guarded_closures, origin_strs, result_switches,
                    root_local, sites_star, first_switches)
 
 STACK = "fastrace::local::local_span_stack::LocalSpanStack::"
@@ -264,7 +264,16 @@ def rule_inert_without_scope(ctx, facts, rule):
                 for sb in result_switches(fn, b):
                     some |= set(fn.variant_edges(sb, ["Continue"]))
         eff = [b for b in fn.calls(lambda t: t["callee"].startswith(LINE)) if not fn.blocks[b]["cleanup"]]
-        ctx.check(bool(eff) and bool(some) and fn.guarded(eff, some), rule, fn.path, fn.span,
+        # the combinator form: current_span_line().and_then(|line| line.start_span(..)) runs the effect only for Some
+        via_closure = [(c, hb) for c, hb in some_guarded_closures(facts, fn, prov, r"Option<&mut fastrace::local::local_span_line::SpanLine>")
+                       if c.calls(lambda t: t["callee"].startswith(LINE))]
+        inside = {c.path for c, _ in via_closure}
+        stray = [c.path for c in facts.closures_of(fn) if c.path not in inside and c.calls(lambda t: t["callee"].startswith(LINE))]
+        if via_closure and not eff and not stray:
+            ctx.ok(rule, fn.path, fn.span, "LocalSpanStack::%s is inert unless a scope is open (span_lines.last_mut() = Some)" % name,
+                   "effects run inside a closure handed to an Option combinator on current_span_line()", extra="inert")
+            continue
+        ctx.check(bool(eff) and bool(some) and fn.guarded(eff, some) and not stray, rule, fn.path, fn.span,
                   "LocalSpanStack::%s is inert unless a scope is open (span_lines.last_mut() = Some)" % name,
                   "effects %s" % [fn.term(b)["callee"].rsplit("::", 1)[1] for b in eff], "effectful calls %s unguarded" % eff, extra="inert")
     ctx.floor(rule, STACK.rstrip(":"), n, 6, "scope-stack operations")
